@@ -26,4 +26,10 @@ VARIANTS = [
              new="    for mod_idx, mod_jdx in modification.edges:\n        if mod_idx in anchor_idxs and mod_jdx in non_anchor_idxs:\n            result.add_edge(mod_to_block[mod_idx], mod_to_block[mod_jdx])")]),
     dict(name='rebuilt-atom-residue-attributes-win (seed C04_e)', expect='fire', key='PROV-rebuild|attributes', edits=[
         dict(file=R, old="            node.update(ref_node)\n            node['atomid'] = res_idx + 1", new="            node = dict(ref_node, **node)\n            node['atomid'] = res_idx + 1")]),
+    dict(name='helper first_alpha accepts any unicode letter', expect='fire', key='HELPER-contract|vermouth/utils.py|first_alpha', edits=[
+        dict(file='vermouth/utils.py', old="        if elem in string.ascii_letters:", new="        if elem.isalpha():")]),
+    dict(name='helper are_all_equal treats a falsy first element as no element', expect='fire', key='HELPER-contract|vermouth/utils.py|are_all_equal', edits=[
+        dict(file='vermouth/utils.py', old="    first = next(iterator, None)\n    return all(np.all(item == first) for item in iterator)", new="    first = next(iterator, None)\n    if not first:\n        return True\n    return all(np.all(item == first) for item in iterator)")]),
+    dict(name='benign helper first_alpha as a generator search', expect='silent', edits=[
+        dict(file='vermouth/utils.py', old="    for elem in search_string:\n        # str.isalpha catches all unicode charaters tagged as \"letter\"; it is a\n        # very broad set of characters.\n        if elem in string.ascii_letters:\n            return elem\n    raise ValueError", new="    letters = [elem for elem in search_string if elem in string.ascii_letters]\n    if letters:\n        return letters[0]\n    raise ValueError")]),
 ]
